@@ -26,11 +26,7 @@ Print Assumptions C07_select_is_activity.
 Theorem C07_accepted_implies_exclusive : forall prog d res,
   elab prog d = Some res ->
   forall rho l, (length (active_for rho prog l) <= 1)%nat.
-Proof.
-  intros prog d res H. apply accepted_exclusive.
-  destruct (spec_accepts prog) eqn:E; [reflexivity|].
-  apply (elab_none_iff prog d) in E. congruence.
-Qed.
+Proof. exact accepted_exclusive_elab. Qed.
 Print Assumptions C07_accepted_implies_exclusive.
 
 (* 3. The elaborator raises PyrtlError (None) exactly when the program is not accepted by the
@@ -96,7 +92,7 @@ Definition ex_prog : list ctree :=
     Otherwise [ Assign (TReg 2) 13;
                 With 1 [ MemAssign 0 23 24 25 ];
                 Otherwise [ Assign (TWire 3) 14 ] ];
-    With 3 [ Assign (TWire 3) 15; With 0 [ With 2 [ Otherwise [ MemAssign 0 26 27 28 ] ] ] ] ].
+    With 3 [ With 0 [ Assign (TWire 3) 15; With 2 [ Otherwise [ MemAssign 0 26 27 28 ] ] ] ] ].
 
 Example C07_example_accepted :
   spec_accepts ex_prog = true /\
@@ -105,21 +101,27 @@ Example C07_example_accepted :
 Proof. split; [vm_compute; reflexivity|eexists; split; vm_compute; reflexivity]. Qed.
 
 (* a = c = 0, b = d = 1: r1 keeps its value (7), r2 takes the otherwise branch (leaf 13),
-   the memory is written through the nested `with b`, w3 takes `with d` *)
+   the memory is written through the nested `with b`, w3 has no active branch (0).
+   a = c = d = 1, b = 0: r1 takes `with a`, r2 its declared default (leaf 30), w3 and the
+   memory are driven from the chain restarted after the otherwise. *)
 Definition ex_env : env :=
   mkEnv (fun p => (p =? 1) || (p =? 3)) (fun r => 100 + r) (fun _ => 7).
+Definition ex_env2 : env :=
+  mkEnv (fun p => negb (p =? 1)) (fun r => 100 + r) (fun _ => 7).
 
 Example C07_example_values :
   spec_value ex_env [(TReg 2, 30)] ex_prog (TReg 1) = Some 7 /\
   spec_value ex_env [(TReg 2, 30)] ex_prog (TReg 2) = Some 113 /\
-  spec_value ex_env [(TReg 2, 30)] ex_prog (TWire 3) = Some 115 /\
+  spec_value ex_env [(TReg 2, 30)] ex_prog (TWire 3) = Some 0 /\
   spec_mem ex_env ex_prog 0 = Some (Some (123, 124, 125)) /\
-  spec_value (mkEnv (fun p => p =? 0) (fun r => 100 + r) (fun _ => 7)) [(TReg 2, 30)] ex_prog (TReg 2)
-    = Some 130.
+  spec_value ex_env2 [(TReg 2, 30)] ex_prog (TReg 1) = Some 110 /\
+  spec_value ex_env2 [(TReg 2, 30)] ex_prog (TReg 2) = Some 130 /\
+  spec_value ex_env2 [(TReg 2, 30)] ex_prog (TWire 3) = Some 115 /\
+  spec_mem ex_env2 ex_prog 0 = Some (Some (126, 127, 128)).
 Proof. vm_compute. repeat split; reflexivity. Qed.
 
-(* the same program with the last memory write not under `otherwise` is rejected, and the two
-   offending path conditions are simultaneously satisfiable *)
+(* rejected: a chain restarted after an otherwise re-assigns the same wire; an assignment
+   under a top-level otherwise only; an assignment under no predicate at all *)
 Example C07_example_rejected :
   elab [ With 0 [ Assign (TWire 0) 1 ]; Otherwise []; With 1 [ Assign (TWire 0) 2 ] ] [] = None /\
   elab [ Otherwise [ Assign (TWire 0) 1 ] ] [] = None /\
